@@ -641,6 +641,12 @@ fn run_one_total(class: &str, input: &str, rep: &mut Report) {
             rep.note(format!("{e}; input[..80]={:?}", input.chars().take(80).collect::<String>()));
             return;
         }
+        Remote::Slow(e) => {
+            rep.count("total:inputs_needing_more_than_30s_cpu", 1);
+            rep.observe("slow_parse_input_class", class);
+            rep.note(format!("{e}; class={class}; input[..60]={:?}", input.chars().take(60).collect::<String>()));
+            return;
+        }
         Remote::Harness(e) => {
             rep.harness_error(format!("totality worker: {e}"));
             return;
@@ -945,7 +951,7 @@ fn sem_case(case: u64, rng: &mut Rng, rep: &mut Report, queries_per_corpus: usiz
                 );
                 false
             }
-            Remote::Unreproduced(e) => {
+            Remote::Unreproduced(e) | Remote::Slow(e) => {
                 rep.count("total:worker_failures_not_reproduced", 1);
                 rep.note(e);
                 false
@@ -1078,6 +1084,7 @@ enum Remote {
     Done(RemoteOutcome),
     Failed { how: &'static str, api: String, detail: Value },
     Unreproduced(String),
+    Slow(String),
     Harness(String),
 }
 
@@ -1330,8 +1337,10 @@ fn one_shot(api: usize, input: &str) -> ChildEnd {
 
 fn failure_kind(end: &ChildEnd) -> Option<&'static str> {
     match end {
-        ChildEnd::Timeout => Some("no-result:hang-or-out-of-memory"),
-        ChildEnd::Signal(_, tail) if tail.contains("memory allocation") => Some("no-result:hang-or-out-of-memory"),
+        // more than 30 s CPU without running out of memory: very slow or looping, cannot tell;
+        // the property does not bound parse time, so this is recorded but is not a verdict
+        ChildEnd::Timeout => Some("slow"),
+        ChildEnd::Signal(_, tail) if tail.contains("memory allocation") => Some("no-result:unbounded-memory-growth"),
         ChildEnd::Signal(_, tail) if tail.contains("stack overflow") => Some("abort:stack-overflow"),
         ChildEnd::Signal(_, _) => Some("abort:killed-by-signal"),
         ChildEnd::Panic(_) => Some("abort:abnormal-exit"),
@@ -1390,6 +1399,12 @@ fn remote_check(input: &str) -> Remote {
                 }
                 if let Some(kind) = failure_kind(&end) {
                     let api = name.split('[').next().unwrap_or(name).to_string();
+                    if kind == "slow" {
+                        return Remote::Slow(format!(
+                            "{name} needs more than {ONE_SHOT_CPU_SECS} s CPU on a {} byte input",
+                            input.len()
+                        ));
+                    }
                     return Remote::Failed {
                         how: kind,
                         api,
